@@ -557,6 +557,57 @@ theorem histories_observational (ops ops' : List Op) (r r' : Reg)
     (h : ∀ x, (specRun ops).get r x = (specRun ops').get r' x) : ObsEq ((run ops).get r) ((run ops').get r') :=
   obsEq_of_mem _ _ (run_rel ops r).1 (run_rel ops' r').1 (fun x => by rw [run_mem ops r x, run_mem ops' r' x, h])
 
+/-- **the set algebra of the single-index calls, as observed**: `Set`/`Clear` are idempotent, `Flip` is an involution,
+    `Clear` undoes `Set` up to a prior membership, and calls on two indexes commute — every later answer (State, Count,
+    the searches, Data, Equal) agrees, whatever capacity the two orders left behind -/
+theorem single_index_algebra (b : T) (i j : Nat) (hb : Inv b) :
+    ObsEq (setBit (setBit b i) i) (setBit b i)
+    ∧ ObsEq (clearBit (clearBit b i) i) (clearBit b i)
+    ∧ ObsEq (flipBit (flipBit b i) i) b
+    ∧ ObsEq (clearBit (setBit b i) i) (clearBit b i)
+    ∧ ObsEq (setBit (clearBit b i) i) (setBit b i)
+    ∧ ObsEq (setBit (setBit b i) j) (setBit (setBit b j) i)
+    ∧ ObsEq (clearBit (clearBit b i) j) (clearBit (clearBit b j) i)
+    ∧ ObsEq (flipBit (flipBit b i) j) (flipBit (flipBit b j) i)
+    ∧ (i ≠ j → ObsEq (clearBit (setBit b i) j) (setBit (clearBit b j) i)) := by
+  have s := fun b i => setBit_inv b i
+  have c := fun b i => clearBit_inv b i
+  have f := fun b i => flipBit_inv b i
+  refine ⟨?_, ?_, ?_, ?_, ?_, ?_, ?_, ?_, fun hij => ?_⟩
+  all_goals
+    apply obsEq_of_mem
+    · first | exact s _ _ (s _ _ hb) | exact c _ _ (c _ _ hb) | exact f _ _ (f _ _ hb) | exact c _ _ (s _ _ hb) | exact s _ _ (c _ _ hb)
+    · first | exact hb | exact s _ _ hb | exact c _ _ hb | exact f _ _ hb | exact s _ _ (s _ _ hb) | exact c _ _ (c _ _ hb) | exact f _ _ (f _ _ hb) | exact s _ _ (c _ _ hb)
+    · intro x
+      simp only [setBit_mem, clearBit_mem, flipBit_mem]
+      by_cases h1 : x = i <;> by_cases h2 : x = j <;> cases mem b x <;> simp_all
+
+/-- **the range calls obey the same algebra** (reversed and clamped ranges included): `SetRange`/`ClearRange` idempotent,
+    `FlipRange` an involution, `ClearRange` after `SetRange` of the same range is `ClearRange`, and vice versa;
+    `FlipRange` of a range is `SetRange` of it on a set that has none of it -/
+theorem range_algebra (b : T) (s e : Nat) (hb : Inv b) :
+    ObsEq (setRange (setRange b s e) s e) (setRange b s e)
+    ∧ ObsEq (clearRange (clearRange b s e) s e) (clearRange b s e)
+    ∧ ObsEq (flipRange (flipRange b s e) s e) b
+    ∧ ObsEq (clearRange (setRange b s e) s e) (clearRange b s e)
+    ∧ ObsEq (setRange (clearRange b s e) s e) (setRange b s e)
+    ∧ ObsEq (flipRange (clearRange b s e) s e) (setRange b s e)
+    ∧ ObsEq (setRange b s e) (setRange b e s) := by
+  have S := fun (b : T) (h : BS.Inv b) => (range_count b s e h).1
+  have C := fun (b : T) (h : BS.Inv b) => (range_count b s e h).2.1
+  have F := fun (b : T) (h : BS.Inv b) => (range_count b s e h).2.2
+  refine ⟨?_, ?_, ?_, ?_, ?_, ?_, ?_⟩
+  all_goals
+    apply obsEq_of_mem
+    · first | exact S _ (S _ hb) | exact C _ (C _ hb) | exact F _ (F _ hb) | exact C _ (S _ hb) | exact S _ (C _ hb) | exact F _ (C _ hb) | exact S _ hb
+    · first | exact hb | exact S _ hb | exact C _ hb | exact (range_count b e s hb).1
+    · intro x
+      simp only [setRange_mem, clearRange_mem, flipRange_mem, Nat.min_comm e s, Nat.max_comm e s]
+      first | done | (cases mem b x <;> cases decide (min s e ≤ x ∧ x ≤ max s e) <;> rfl)
+
+set_option maxRecDepth 100000 in
+example : count (flipRange (clearRange (setBit {} 70) 9 3) 3 9) = 8 := by decide
+
 /-! non-vacuity: the invariant holds for the zero value and a concrete history; `countSetBits` evaluated at sample
     words; `equal` sees through different capacities -/
 example : BS.Inv ({} : T) := rfl
